@@ -11,6 +11,9 @@ use std::io::Cursor;
 #[derive(Clone, Debug, Serialize, Deserialize)]
 pub struct C10Case {
     pub spec: EncSpec,
+    /// drive the built converters on the file instead of the library readers
+    #[serde(default)]
+    pub tool: bool,
 }
 
 pub struct C10;
@@ -375,7 +378,9 @@ impl Check for C10 {
         "C10"
     }
     fn cases(&self, tier: Tier) -> Box<dyn Iterator<Item = C10Case> + '_> {
-        Box::new(specs(tier).into_iter().map(|spec| C10Case { spec }))
+        let step = if tier == Tier::Quick { 9 } else { 3 };
+        let tools: Vec<C10Case> = specs(tier).into_iter().step_by(step).map(|spec| C10Case { spec, tool: true }).collect();
+        Box::new(specs(tier).into_iter().map(|spec| C10Case { spec, tool: false }).chain(tools.into_iter()))
     }
     fn run(&self, case: &C10Case, out: &mut Outcome) {
         let spec = &case.spec;
@@ -426,6 +431,10 @@ impl Check for C10 {
                     out.count("files_with_3+_index_levels", 1);
                 }
             }
+        }
+        if case.tool {
+            c10_tool(&enc, spec, &tags, out);
+            return;
         }
         out.count("encoded_files", 1);
         if !spec.le {
@@ -560,4 +569,68 @@ pub fn gen_c20(dir: &str, thorough: bool) {
     }
     std::fs::write(format!("{}/manifest.json", dir), serde_json::to_string(&manifest).unwrap()).unwrap();
     println!("GENERATED {}", manifest.len());
+}
+
+/// C10 tool part: the converters on encoder-written files.
+fn c10_tool(enc: &Encoded, spec: &EncSpec, tags: &[String], out: &mut Outcome) {
+    use crate::clifam::{run_in, workdir};
+    let wd = workdir();
+    let dir = wd.path();
+    std::fs::write(dir.join("f.bb"), &enc.bytes).unwrap();
+    let tool = if spec.bed { "bigbedtobed" } else { "bigwigtobedgraph" };
+    let mut want = String::new();
+    // the converters walk chromosomes in the order of the chromosome tree (key order)
+    for (name, id, _) in &enc.chroms {
+        if spec.bed {
+            for (s, e, rest) in &enc.bed[*id as usize] {
+                if rest.is_empty() {
+                    want.push_str(&format!("{}\t{}\t{}\n", name, s, e));
+                } else {
+                    want.push_str(&format!("{}\t{}\t{}\t{}\n", name, s, e, rest));
+                }
+            }
+        } else {
+            for (s, e, v) in &enc.wig[*id as usize] {
+                want.push_str(&format!("{}\t{}\t{}\t{}\n", name, s, e, v.to_bits()));
+            }
+        }
+    }
+    for threads in [1usize, 3] {
+        let a: Vec<String> = vec![tool.to_string(), "f.bb".into(), format!("o{}.txt", threads), "-t".into(), threads.to_string()];
+        let r = run_in(dir, &a);
+        out.count("tool_convert_runs", 1);
+        if r.timed_out || r.code != Some(0) {
+            out.fail("converter_refuses_well_formed_file", tags, format!("{:?}: exit {:?} stderr {}", a, r.code, r.stderr.chars().take(300).collect::<String>()));
+            continue;
+        }
+        let text = std::fs::read_to_string(dir.join(format!("o{}.txt", threads))).unwrap_or_default();
+        let got: String = if spec.bed {
+            text
+        } else {
+            let mut g = String::new();
+            for l in text.lines() {
+                let f: Vec<&str> = l.split('\t').collect();
+                if f.len() == 4 {
+                    g.push_str(&format!("{}\t{}\t{}\t{}\n", f[0], f[1], f[2], f[3].parse::<f32>().map(|x| x.to_bits()).unwrap_or(0xdead)));
+                } else {
+                    g.push_str(l);
+                    g.push('\n');
+                }
+            }
+            g
+        };
+        if got != want {
+            out.fail("converter_output_differs_from_encoded_content", tags, format!("{:?}: got {:?}, encoded {:?}", a, got.chars().take(300).collect::<String>(), want.chars().take(300).collect::<String>()));
+        }
+    }
+    if !spec.bed {
+        let a: Vec<String> = vec!["bigwiginfo".into(), "f.bb".into()];
+        let r = run_in(dir, &a);
+        out.count("tool_convert_runs", 1);
+        let swapped = r.stdout.lines().find_map(|l| l.strip_prefix("isSwapped: ").map(|x| x.trim().to_string()));
+        let ver = r.stdout.lines().find_map(|l| l.strip_prefix("version: ").map(|x| x.trim().to_string()));
+        if r.code != Some(0) || swapped != Some(if spec.le { "0".to_string() } else { "1".to_string() }) || ver != Some(spec.version.to_string()) {
+            out.fail("info_tool_misreports_header", tags, format!("{:?}: exit {:?} isSwapped {:?} version {:?} for le={} version={}", a, r.code, swapped, ver, spec.le, spec.version));
+        }
+    }
 }
